@@ -30,6 +30,8 @@ val overflowing : coq_Z -> checked_res
 
 val perform_checked : arith_op -> coq_Z -> coq_Z -> checked_res
 
+val exact_op : arith_op -> coq_Z -> coq_Z -> coq_Z option
+
 type vec_res =
 | VOk of coq_Z list
 | VOverflow
